@@ -431,6 +431,11 @@ type StreamSpec struct {
 	UnpaddedLie map[int]uint64
 	RecUSizeLie map[int]uint64
 	BackwardLie *uint32
+	// DropRecs > 0: the index lists only the first len-DropRecs records, with
+	// a matching count (a self-consistent index that covers fewer blocks than
+	// the stream has); DropRecs < 0: the last record is listed -DropRecs
+	// additional times
+	DropRecs int
 }
 
 // EncodeXZ builds one xz stream. It returns the stream bytes and content.
@@ -491,6 +496,12 @@ func EncodeXZ(sp StreamSpec) (stream, plain []byte, err error) {
 		plain = append(plain, content...)
 	}
 	idx := []byte{0}
+	if sp.DropRecs > 0 && sp.DropRecs <= len(recs) {
+		recs = recs[:len(recs)-sp.DropRecs]
+	}
+	for k := sp.DropRecs; k < 0 && len(recs) > 0; k++ {
+		recs = append(recs, recs[len(recs)-1])
+	}
 	cnt := uint64(len(recs))
 	if sp.CountLie != nil {
 		cnt = *sp.CountLie
